@@ -178,9 +178,18 @@ class Graph(nx.DiGraph):  # pylint: disable=too-many-public-methods
         raise ValueError(f"Node {node_name} does not exist")
 
     def get_nodes_from_lvl(self, node: str, lvl: int):
-        """Return the nodes from the level."""
+        """Return the nodes from the level: those of the routers `<node>_<i>_<j>...` of the tree `node`."""
+
+        def in_tree(name):
+            # Other nodes may merely start with the same characters (`router2_0`, `router_cfg`)
+            if name == node:
+                return True
+            if not name.startswith(node + "_"):
+                return False
+            return all(i.isdigit() for i in name[len(node) + 1 :].split("_"))
+
         nodes = self.get_nodes(
-            filters=[lambda n: n.startswith(node), lambda n: self.nodes[n]["lvl"] == lvl],
+            filters=[in_tree, lambda n: self.nodes[n].get("lvl") == lvl],
             with_name=True,
         )
         return [name for name, _ in nodes]
